@@ -160,6 +160,15 @@ func acceptAlphabet() []string {
 
 var rhAlphabet = []string{"nil", "custom", "ct-json", "ct-gr"}
 
+// rhSpellingAlphabet: further ResponseHeaders settings, sent under a smaller product (see plan):
+// the Content-Type key spelled all lower-case / all upper-case (http.Header and gqlgen's own
+// negotiation treat header names case-insensitively), a charset parameter on
+// application/graphql-response+json, and a non-Content-Type header in non-canonical spelling.
+// Together with rhAlphabet every key spelling meets every value (application/json and
+// application/graphql-response+json, with and without charset) at least once - a pairwise
+// selection, not the full spelling x value x extra-header product.
+var rhSpellingAlphabet = []string{"custom-lower", "ct-gr-lower", "ct-gr-upper", "ct-json-lower", "ct-json-upper", "ct-gr-charset", "ct-gr-charset-lower", "ct-json-charset-upper"}
+
 func rhMap(rh string) map[string][]string {
 	switch rh {
 	case "custom":
@@ -168,8 +177,35 @@ func rhMap(rh string) map[string][]string {
 		return map[string][]string{"Content-Type": {"application/json; charset=utf-8"}, "X-Verif": {"1"}}
 	case "ct-gr":
 		return map[string][]string{"Content-Type": {mtGR}}
+	case "custom-lower":
+		return map[string][]string{"x-verif": {"1"}}
+	case "ct-gr-lower":
+		return map[string][]string{"content-type": {mtGR}}
+	case "ct-gr-upper":
+		return map[string][]string{"CONTENT-TYPE": {mtGR}, "x-verif": {"1"}}
+	case "ct-json-lower":
+		return map[string][]string{"content-type": {mtJSON}, "x-verif": {"1"}}
+	case "ct-json-upper":
+		return map[string][]string{"CONTENT-TYPE": {mtJSON}}
+	case "ct-gr-charset":
+		return map[string][]string{"Content-Type": {mtGR + "; charset=utf-8"}}
+	case "ct-gr-charset-lower":
+		return map[string][]string{"content-type": {mtGR + "; charset=utf-8"}, "X-Verif": {"1"}}
+	case "ct-json-charset-upper":
+		return map[string][]string{"CONTENT-TYPE": {"application/json; charset=utf-8"}}
 	}
 	return nil
+}
+
+// configuredContentType is the Content-Type a ResponseHeaders setting configures (header names
+// are case-insensitive).
+func configuredContentType(rh string) (string, bool) {
+	for k, v := range rhMap(rh) {
+		if strings.EqualFold(k, "Content-Type") && len(v) > 0 {
+			return v[0], true
+		}
+	}
+	return "", false
 }
 
 var orderAlphabet = []string{"default", "reversed"}
